@@ -9,7 +9,7 @@ for d in seeded/C*/; do
   name=$(basename $d); id=${name%%-*}
   s=$(date +%s)
   if [ "$mode" = apply ]; then
-    git -C /repo apply $d/patch.diff || { echo "$name does not apply"; continue; }
+    git -C /repo apply /verif/$d/patch.diff || { echo "$name does not apply"; continue; }
     o=$(./bin/check $id quick 2>&1); rc=$?
     git -C /repo checkout -- .
   else
